@@ -322,9 +322,12 @@ APop ==
                       /\ UNCHANGED <<avail, handles, running, pathOk>>
                  [] m[1] = "Stop" ->
                       /\ IF ~paused
-                           THEN /\ DeregisterSet({l \in Listeners : lstTimer[l] = 0})
+                           THEN /\ registered' = [l \in Listeners |-> IF lstTimer[l] = 0 THEN FALSE ELSE registered[l]]
+                                /\ edge' = [l \in Listeners |-> IF lstTimer[l] = 0 THEN FALSE ELSE edge[l]]
                                 /\ lstTimer' = [l \in Listeners |-> 0]
-                           ELSE UNCHANGED <<registered, edge, pathOk, lstTimer>>
+                           ELSE UNCHANGED <<registered, edge, lstTimer>>
+                      \* the listeners are not used any more: cleanup() removes the Unix socket files
+                      /\ pathOk' = [l \in Listeners |-> IF l \in Uds THEN FALSE ELSE pathOk[l]]
                       /\ running' = FALSE /\ apc' = "exited"
                       /\ UNCHANGED <<avail, handles, paused, ret, cur, tokLeft, pauseEffective>>
   /\ rrWindow' = (IF wq # <<>> /\ Head(wq)[1] = "WK" THEN <<>> ELSE rrWindow)   \* a rejoin restarts the window
@@ -358,9 +361,12 @@ AAcceptSys ==
             /\ act' = [A("AAcceptSys") EXCEPT !.l = cur, !.x = "wouldblock"]
             /\ UNCHANGED <<backlog, errq, registered, edge, pathOk, lstTimer, timeoutSet, inHand, turns, fatalSeen>>
        ELSE /\ inHand' = Head(backlog[cur]) /\ backlog' = [backlog EXCEPT ![cur] = Tail(@)]
+            \* a pending readiness notification is re-checked by the poller when it is about to be delivered: it is
+            \* void once the backlog has been emptied (by an accept pass that was started by a waker event)
+            /\ edge' = [edge EXCEPT ![cur] = @ /\ Tail(backlog[cur]) # <<>>]
             /\ turns' = 0 /\ apc' = "one"
             /\ act' = [A("AAcceptSys") EXCEPT !.l = cur, !.x = "conn", !.c = Head(backlog[cur])]
-            /\ UNCHANGED <<errq, registered, edge, pathOk, lstTimer, timeoutSet, cur, tokLeft, fatalSeen>>
+            /\ UNCHANGED <<errq, registered, pathOk, lstTimer, timeoutSet, cur, tokLeft, fatalSeen>>
   /\ UNCH_ENV
   /\ UNCHANGED <<paused, running, handles, next, avail, batch, ret, forced, wq, wakerPending, chan, chanOpen,
                  counter, inprog, alive, oldInprog, oldCounter, cmdq, served, closed, dispatchLog, rrWindow,
@@ -427,8 +433,12 @@ ASend ==
 AInc ==
   /\ apc = "inc"
   /\ LET i == handles[next + 1]
-         old == IF IncBeforeSend THEN counter[i] - 1 ELSE counter[i] IN
-       /\ counter' = (IF IncBeforeSend THEN counter ELSE [counter EXCEPT ![i] = @ + 1])
+         \* the handle's counter: the worker may have died between the send and this increment (its replacement gets
+         \* a fresh counter; the handle still points to the dead generation's)
+         cval == IF alive[i] THEN counter[i] ELSE oldCounter[i]
+         old == IF IncBeforeSend THEN cval - 1 ELSE cval IN
+       /\ counter' = (IF IncBeforeSend \/ ~alive[i] THEN counter ELSE [counter EXCEPT ![i] = @ + 1])
+       /\ oldCounter' = (IF IncBeforeSend \/ alive[i] THEN oldCounter ELSE [oldCounter EXCEPT ![i] = @ + 1])
        /\ avail' = (IF old = Limit /\ ~NoClearOnLimit THEN [avail EXCEPT ![i] = FALSE] ELSE avail)
        /\ act' = [A("AInc") EXCEPT !.i = i]
   /\ next' = (IF RoundRobinStuck THEN next ELSE (next + 1) % Len(handles))
@@ -438,7 +448,7 @@ AInc ==
   /\ UNCH_ENV
   /\ UNCHANGED <<backlog, registered, edge, pathOk, errq, lstTimer, timeoutSet, paused, running, handles,
                  batch, ret, cur, tokLeft, inHand, forced, turns, wq, wakerPending, chan, chanOpen, inprog, alive,
-                 oldInprog, oldCounter, cmdq, served, closed, dispatchLog, everFaulted, pauseEffective, fatalSeen>>
+                 oldInprog, cmdq, served, closed, dispatchLog, everFaulted, pauseEffective, fatalSeen>>
 
 \* process_timeout at the end of every loop iteration
 ATimeout ==
